@@ -212,8 +212,16 @@ def corruptions(rng, data, count):
 
 
 def _declared_ok(b):
-    """streams whose header declares millions of points are left to C18 (the list based model is slow on them)"""
-    return len(b) < 15 or int.from_bytes(b[11:15], "little") <= 1 << 20
+    """streams in which one of the point counts (header, attribute block, float tree, kd payload) is in the millions are
+    left to C18, whose harness caps allocations: `dec` runs uncapped, and a decoder that sizes a buffer by such a count
+    (seeded C03-5) would take the machine down instead of being reported; the list based model is slow on them too"""
+    if len(b) >= 15 and int.from_bytes(b[11:15], "little") > 1 << 20:
+        return False
+    try:
+        fs = R.stream_fields(b)
+    except Exception:        # noqa: BLE001 - best effort parse of a corrupted stream
+        return True
+    return all(f.value <= 1 << 20 for f in fs if f.name.endswith("num_points"))
 
 
 def cases(rng, tier, flavour="plain"):
